@@ -309,6 +309,8 @@ def vec_misc(inp, W):
         others = [inp["other"]]
         out = v.concat(inp["other"])
     elif m in ("as_float", "as_object", "as_boolean", "as_string", "as_integer"): out = getattr(v, m)()
+    elif m == "map": out = v.map(lambda x: x)
+    elif m == "range": out = v.range()
     elif m == "sample":
         draw = inp["draw"]
         orig = W.np.random.choice
@@ -342,6 +344,8 @@ def df_misc(inp, W):
         return {"out": out, "recv": data, "alias": []}
     elif m == "geo_to_data_frame":
         out = data.to_data_frame(drop_geometry=inp["drop_geometry"])
+    elif m == "clear":
+        out = data.clear()
     else:
         raise ValueError(m)
     return {"out": out, "recv": data, "alias": _frame_alias(W, out, data)}
@@ -471,6 +475,21 @@ def _lod_call(inp, W, data):
         out = data.reverse()
     elif m in ("head", "tail"):
         out = getattr(data, m)(inp["n"])
+    elif m == "sample":
+        lm = __import__("dataiter.list_of_dicts", fromlist=["x"])
+        draw = list(inp["draw"])
+        class _Random:
+            @staticmethod
+            def sample(population, k):
+                if k != len(draw) or any(not 0 <= i < len(population) for i in draw):
+                    raise RuntimeError(f"random.sample stub: asked for {k} of {len(population)}, harness drew {draw}")
+                return list(draw)
+        old = lm.random
+        lm.random = _Random
+        try:
+            out = data.sample(inp["n"]) if inp["n"] is not None else data.sample()
+        finally:
+            lm.random = old
     elif m == "getitem":
         a, b, c = inp["slice"]
         out = data[a:b:c]
